@@ -841,7 +841,23 @@ def l3_gen(seed, families):
                 filevars[n] = v
             ordinary[-1][n] = ("var", v)
         elif k == 2:
-            lines.append("%senum { %s = %d };" % (ind, n, v))
+            outer = lookup(ordinary, n)
+            if outer and not at_file_scope and r.below(2) and n not in ordinary[-1]:
+                # the enumerator's own value mentions the name it is about to hide: that is still the OUTER one
+                okind, ov = outer
+                if okind == "enum" and ov < 100:
+                    lines.append("%senum { %s = %s + 1 };" % (ind, n, ref(n)))
+                    v = ov + 1
+                elif okind == "typedef":
+                    lines.append("%senum { %s = sizeof(%s) + 1 };" % (ind, n, ref(n)))
+                    v = ov + 1
+                elif okind == "var":
+                    lines.append("%senum { %s = sizeof(%s) + %d };" % (ind, n, ref(n), v))
+                    v = 4 + v
+                else:
+                    lines.append("%senum { %s = %d };" % (ind, n, v))
+            else:
+                lines.append("%senum { %s = %d };" % (ind, n, v))
             ordinary[-1][n] = ("enum", v)
         else:
             lines.append("%sstruct %s { char a[%d]; };" % (ind, n, v))
@@ -1027,6 +1043,28 @@ def l3_gen(seed, families):
         lines.append("  { const %s *sa = %s\"%s\\0%s.x\", *sb = %s\"%s\\0%s.x\"; line = line ? line : ((sa[%d] != '%s' || sb[%d] != '%s' || sa[0] != sb[0]) ? __LINE__ : 0); }"
                      % ({"": "char", "L": "int", "u": "unsigned short", "U": "unsigned"}[pfx], pfx, pre, t1, pfx, pre, t2, len(pre) + 1, t1, len(pre) + 1, t2))
         probes += 1
+    # members are names as well: a struct with 4 to 300 direct members and anonymous struct / union members among them, every
+    # member written and read back by name (an index over member names must find the nested ones where they really are)
+    if r.below(3) == 0:
+        nm = r.pick([4, 29, 31, 32, 33, 40, 64, 300])
+        at1, at2 = r.below(nm), r.below(nm)
+        mem = []
+        for k in range(nm):
+            if k == at1:
+                mem.append("struct { int q; char r; };")
+            if k == at2:
+                mem.append("union { int u; char c; };")
+            mem.append("int m%d;" % k)
+        sname = "BS%d" % (seed % 1000)
+        lines.append("  struct %s { %s } bs;" % (sname, " ".join(mem)))
+        lines.append("  for (int k = 0; k < (int)sizeof bs; k++) ((char *)&bs)[k] = 0;")
+        lines.append("  bs.q = 1001; bs.r = 7; bs.u = 2002;")
+        for k in range(nm):
+            lines.append("  bs.m%d = %d;" % (k, k + 1))
+        lines.append("  line = line ? line : ((bs.q != 1001 || bs.r != 7 || bs.u != 2002 || bs.c != (char)2002) ? __LINE__ : 0);")
+        for k in sorted(set([0, nm - 1, at1 % nm, at2 % nm, r.below(nm), r.below(nm)])):
+            lines.append("  line = line ? line : (bs.m%d != %d ? __LINE__ : 0);" % (k, k + 1))
+        probes += 8
     lines += fn_blockdecl
     if fn_probe:
         # only the top of the chain is called (sometimes one more): everything below must have been emitted for it
